@@ -35,6 +35,7 @@ struct op_rec
 static std::vector<std::shared_ptr<op_rec>> g_all;    // kept until the end: late duplicate signals stay observable
 static std::atomic<std::uint64_t> g_value_signals{0}, g_error_signals{0}, g_slow_conts{0}, g_bytes{0};
 static std::atomic<std::int64_t> g_shadow_in_poller{0};    // hook side: queued - callback done
+static std::atomic<std::int64_t> g_max_shadow{0};
 static std::atomic<std::uint64_t> g_cb_top{0}, g_cb_bottom{0}, g_cb_single{0}, g_queued{0};
 static std::atomic<int> g_in_callback{0};
 static std::atomic<int> g_phase{0};    // 0 submit, 1 pika::wait, 2 straggler loop, 3 stop_polling, 4 finalize/stop, 5 done
@@ -48,7 +49,10 @@ static void hook(std::uint32_t site, void const*, std::uint64_t, std::uint64_t b
     {
     case pv::mpi_request_queued:
         ++g_queued;
-        ++g_shadow_in_poller;
+        {
+            std::int64_t v = ++g_shadow_in_poller, m = g_max_shadow.load();
+            while (v > m && !g_max_shadow.compare_exchange_weak(m, v)) {}
+        }
         break;
     case pv::mpi_ready_dequeued:
         ++g_in_callback;
@@ -93,6 +97,7 @@ int main(int argc, char** argv)
     int cycle = (int) a.u64("cycle", 7);    // stop_polling/start_polling every `cycle` rounds
     int err_every = (int) a.u64("err-every", 5);
     int spin_max_us = (int) a.u64("spin-us", 1500);
+    bool burst = a.u64("burst", 0) != 0;
     cfg.extra.push_back("--pika:mpi-completion-mode=" + std::to_string(mode));
     std::string pool_name;
     if (pool)
@@ -203,12 +208,13 @@ int main(int argc, char** argv)
         {
             g_round = round;
             g_phase = 0;
-            int np = 1 + (int) r.below((std::uint64_t) maxpairs);
+            int np = burst ? maxpairs - (int) r.below(8) : 1 + (int) r.below((std::uint64_t) maxpairs);
+            if (np < 1) np = 1;
             std::vector<std::shared_ptr<op_rec>> mine;
             bool last = (round == rounds - 1);
             for (int i = 0; i < np; ++i)
             {
-                std::size_t cnt = sizes[r.below(r.chance(1, 6) ? 6 : 5)];
+                std::size_t cnt = sizes[r.below(burst ? 4 : (r.chance(1, 6) ? 6 : 5))];
                 auto rr = std::make_shared<op_rec>();
                 auto ss = std::make_shared<op_rec>();
                 rr->kind = 'r';
@@ -221,6 +227,13 @@ int main(int argc, char** argv)
                 for (std::size_t k = 0; k < cnt; ++k) (*ss->buf)[k] = pattern(round, i, k);
                 g_bytes += cnt * sizeof(int);
                 unsigned rd = r.chance(1, 2) ? (unsigned) r.below(400) : 0, sd = r.chance(1, 2) ? (unsigned) r.below(900) : 0;
+                if (burst)
+                {
+                    // all receives are posted first and stay pending together (the polling vector is tested in chunks of 32);
+                    // the sends follow one at a time, highest index first
+                    rd = 0;
+                    sd = 1500 + (unsigned) (np - 1 - i) * 60;
+                }
                 unsigned spin = r.chance(1, 3) ? (unsigned) r.below((std::uint64_t) spin_max_us + 1) : 0;
                 // the slowest continuation belongs to the operation most likely to finish last
                 if (i == np - 1) spin = (unsigned) spin_max_us, sd += 600;
@@ -342,6 +355,8 @@ int main(int argc, char** argv)
     report.bit("polling_restarted", restarts);
     report.bit("shutdown_with_requests_in_flight", shutdown_variant ? 1 : 0);
     report.bit("dedicated_pool", pool ? 1 : 0);
+    report.bit("more_than_32_requests_pending", g_max_shadow.load() > 32 ? 1 : 0);
+    report.add("max_requests_in_poller", (std::uint64_t) g_max_shadow.load());
     std::string sig = sf("%s|mode%u|pool%d|shutdown%d|er%d|", cfg.describe().c_str(), mode, (int) pool, (int) shutdown_variant, (int) errors_return);
     sig += (g_cb_top.load() || pool || shutdown_variant || err_ops) ? "1" : "0";
     report.signature(sig);
